@@ -55,3 +55,13 @@ void h_special(void) {
     __CPROVER_assert(r && tag == SPEC[k].tag && SCPI_ErrorCount(&ctx) == 0, "C04: special mnemonic (short or long form, any case) decodes to its tag");
     REACH("special");
 }
+
+/* the assumption behind contracts/units.h: every name in the real tables is short */
+void h_names(void) {
+    size_t k = nondet_size(); __CPROVER_assume(k < sizeof scpi_units_def / sizeof scpi_units_def[0] - 1);
+    __CPROVER_assert(scpi_units_def[k].name != NULL && strlen(scpi_units_def[k].name) <= 7 && strlen(scpi_units_def[k].name) >= 1, "unit names are 1..7 characters");
+    size_t j = nondet_size(); __CPROVER_assume(j < sizeof scpi_special_numbers_def / sizeof scpi_special_numbers_def[0] - 1);
+    __CPROVER_assert(scpi_special_numbers_def[j].name != NULL && strlen(scpi_special_numbers_def[j].name) <= 9, "special names are at most 9 characters");
+    __CPROVER_assert(scpi_units_def[sizeof scpi_units_def / sizeof scpi_units_def[0] - 1].name == NULL, "unit table is terminated");
+    REACH("names");
+}
